@@ -35,9 +35,12 @@ def gen_species(rng, tag, nmin, nmax, rmax=3, connected=True):
     sizes = [b - a for a, b in zip([0] + cuts, cuts + [n])]
     atoms = []
     k = 0
+    # (one species in four: atom names that start with the symbols of DIFFERENT chemical elements, as all-atom topologies
+    # have — a rotation turns the object about its GEOMETRIC centre whatever its atoms are called: seed C18-14)
+    elements = rng.random() < 0.25
     for r, sz in enumerate(sizes):
         for _ in range(sz):
-            atoms.append((r + 1, f"{tag}R{r}", f"{tag}{k}"))
+            atoms.append((r + 1, f"{tag}R{r}", (f"{'CNOHSPF'[(k * 3 + r) % 7]}{k}" if elements else f"{tag}{k}")))
             k += 1
     bonds = set()
     if connected:
